@@ -34,6 +34,8 @@ struct Session {
     awaiting_ack: VecDeque<(usize, oneshot::Sender<Result<RxPacket, MqttError>>)>,
     subscriptions: VecDeque<(usize, mpsc::UnboundedSender<RxPacket>)>,
     retrasmit_queue: VecDeque<(usize, Bytes)>,
+    // Identifiers of inbound QoS 2 messages answered with PUBREC and not yet released with PUBREL.
+    inbound_qos2: Vec<u16>,
 }
 
 struct Connection {
@@ -96,6 +98,7 @@ where
         session.awaiting_ack.clear();
         session.subscriptions.clear();
         session.retrasmit_queue.clear();
+        session.inbound_qos2.clear();
     }
 
     fn validate_packet_size(connection: &Connection, packet: &[u8]) -> Result<(), MqttError> {
@@ -237,7 +240,25 @@ where
                     })
                     .collect();
 
+                // A QoS 2 PUBLISH repeated before its PUBREL is a re-delivery:
+                // answered with PUBREC again but not handed to the application twice.
+                let redelivered = match (qos, maybe_packet_id) {
+                    (QoS::ExactlyOnce, Some(packet_id)) => {
+                        if session.inbound_qos2.contains(&packet_id.get()) {
+                            true
+                        } else {
+                            session.inbound_qos2.push(packet_id.get());
+                            false
+                        }
+                    }
+                    _ => false,
+                };
+
                 for subscription_identifier in subscription_identifiers {
+                    if redelivered {
+                        break;
+                    }
+
                     if let Some((_, subscription)) =
                         utils::linear_search_by_key(&session.subscriptions, subscription_identifier)
                             .map(|pos| &mut session.subscriptions[pos])
@@ -314,6 +335,7 @@ where
             }
             RxPacket::Pubrel(pubrel) => {
                 let packet_id = pubrel.packet_identifier;
+                session.inbound_qos2.retain(|id| *id != packet_id.get());
                 Self::ack::<PubcompReason>(tx, packet_id).await?
             }
             // Not expected once the connection is established, nothing awaits them.
@@ -381,6 +403,7 @@ where
                     awaiting_ack: VecDeque::new(),
                     subscriptions: VecDeque::new(),
                     retrasmit_queue: VecDeque::new(),
+                    inbound_qos2: Vec::new(),
                 },
                 connection: Connection {
                     disconnection_timestamp: None,
